@@ -48,6 +48,7 @@ def one(args):
     idx, bits, port = args[:3]
     stdin_file = len(args) > 3 and args[3] is True
     empty_file = len(args) > 3 and args[3] == 'emptyfile'
+    neg_dates = len(args) > 3 and args[3] == 'negdates'
     f = dict(zip(NAMES, bits))
     d = tempfile.mkdtemp(prefix='c18_')
     try:
@@ -62,8 +63,8 @@ def one(args):
         if f['cluster']: argv += ['--atlasClusterName', 'C1']
         if f['pub']: argv += ['--atlasPublicKey', 'pubk']
         if f['priv']: argv += ['--atlasPrivateKey', 'privk']
-        if f['start']: argv += ['-s', '5']
-        if f['end']: argv += ['-e', '6']
+        if f['start']: argv += (['--atlasLogStartDate=-86400'] if neg_dates else ['-s', '5'])
+        if f['end']: argv += (['--atlasLogEndDate=-3600'] if neg_dates else ['-e', '6'])
         env = {'PATH': '/usr/bin:/bin', 'HOME': d, 'TMPDIR': d, 'HTTPS_PROXY': 'http://run%d:x@127.0.0.1:%d' % (idx, port), 'NO_PROXY': ''}
         if f['env']: env.update(ATLAS_PUBLIC_KEY='epub', ATLAS_PRIVATE_KEY='epriv')
         if f['stdin'] and stdin_file:
@@ -97,7 +98,23 @@ def run(chk, replay=None):
     file_combos = [(i, bits) for i, bits in enumerate(combos) if bits[0]]
     with ThreadPoolExecutor(max_workers=16) as ex:
         results_e = list(ex.map(one, [(200000 + i, bits, lst.port, 'emptyfile') for i, bits in file_combos]))
+    # a lone start or end date whose VALUE is negative is still a date that was given: every combination that only the date-pair rule rejects, again with negative values
+    lone = []
+    for i, bits in enumerate(combos):
+        f = dict(zip(NAMES, bits))
+        if f['start'] != f['end'] and rule(dict(f, start=True, end=True)) is not None: lone.append((i, bits))
+    with ThreadPoolExecutor(max_workers=16) as ex:
+        results_n = list(ex.map(one, [(300000 + i, bits, lst.port, 'negdates') for i, bits in lone]))
     import time; time.sleep(0.5); lst.stop = True
+    for (idx, rc, so, se, files), (i, bits) in zip(results_n, lone):
+        f = dict(zip(NAMES, bits))
+        chk.count(); chk.nontriv((bits, 'negdates'))
+        net = lst.hits.get('run%d' % idx, 0)
+        effects = sorted(({'out'} if ('out.log' in files or any(x.startswith('out.log.') for x in files)) else set()) | ({'key'} if 'key.file' in files else set()) | ({'net'} if net else set()))
+        case = {'flags': [n for n in NAMES if f[n]], 'date_value': 'negative', 'rc': rc, 'stderr': se.decode('utf-8', 'replace'), 'files': files, 'network_attempts': net}
+        if not (rc == 1 and se.startswith(b'Error:')): chk.violate('a start / end date given alone (negative value) was not rejected', case, tags=['accepted', 'negdates'])
+        if effects: chk.violate('rejection decided from the flags had side effects: %s' % effects, case, tags=['sideeffect', 'negdates'] + effects)
+    chk.streams.append({'stream': 'combinations that only the date-pair rule rejects, with negative date values', 'cases': len(lone)})
     for (idx, rc, so, se, files), (i, bits) in zip(results_e, file_combos):
         f = dict(zip(NAMES, bits))
         chk.count(); chk.nontriv((bits, 'emptyfile'))
